@@ -90,45 +90,53 @@ SetupRStep(p) ==
                  ELSE [kind |-> "ok", err |-> "",
                        km |-> KeySchedule(p.suite, p.mode, d.ss, p.info, p.psk, p.pskId)]
 
+SetupSRec(c, p, r) ==
+    [op |-> "setup_s", c |-> c, form |-> "",
+     plain |-> [suite |-> p.suite, mode |-> p.mode],
+     bytes |-> [pk_r |-> p.pkR, info |-> p.info, rng |-> p.rng] @@ ModeBytesS(p),
+     kind |-> r.kind, err |-> r.err,
+     out |-> [enc |-> r.enc], outn |-> [drawn |-> Nsk(p.suite[1])],
+     pre |-> NoState,
+     post |-> IF r.kind = "ok" THEN [seq |-> Seq0, ovf |-> FALSE] ELSE NoState,
+     untouched |-> FALSE]
+
+SetupRRec(c, p, r) ==
+    [op |-> "setup_r", c |-> c, form |-> "",
+     plain |-> [suite |-> p.suite, mode |-> p.mode],
+     bytes |-> [sk_r |-> p.skR, enc |-> p.enc, info |-> p.info] @@ ModeBytesR(p),
+     kind |-> r.kind, err |-> r.err, out |-> EmptyF, outn |-> EmptyF,
+     pre |-> NoState,
+     post |-> IF r.kind = "ok" THEN [seq |-> Seq0, ovf |-> FALSE] ELSE NoState,
+     untouched |-> FALSE]
+
+\* `made` is a ghost field: the calls that created the context (lets a test re-create any state)
 SetupS(c, p) ==
     /\ c \notin Live
     /\ LET r == SetupSStep(p)
+           rec == SetupSRec(c, p, r)
        IN  /\ IF r.kind = "ok"
-              THEN /\ ctx'  = Put(ctx, c, NewCtx("S", p.suite, r.km, p))
+              THEN /\ ctx'  = Put(ctx, c, NewCtx("S", p.suite, r.km, p) @@ [made |-> <<rec>>])
                    /\ sent' = Put(sent, c, <<>>)
               ELSE UNCHANGED <<ctx, sent>>
-           /\ Record([op |-> "setup_s", c |-> c, form |-> "",
-                      plain |-> [suite |-> p.suite, mode |-> p.mode],
-                      bytes |-> [pk_r |-> p.pkR, info |-> p.info, rng |-> p.rng] @@ ModeBytesS(p),
-                      kind |-> r.kind, err |-> r.err,
-                      out |-> [enc |-> r.enc], outn |-> [drawn |-> Nsk(p.suite[1])],
-                      pre |-> NoState,
-                      post |-> IF r.kind = "ok" THEN [seq |-> Seq0, ovf |-> FALSE] ELSE NoState,
-                      untouched |-> FALSE])
+           /\ Record(rec)
     /\ UNCHANGED <<rcvd, shots, used>>
 
 SetupR(c, p) ==
     /\ c \notin Live
     /\ LET r == SetupRStep(p)
+           rec == SetupRRec(c, p, r)
        IN  /\ IF r.kind = "ok"
-              THEN /\ ctx'  = Put(ctx, c, NewCtx("R", p.suite, r.km, p))
+              THEN /\ ctx'  = Put(ctx, c, NewCtx("R", p.suite, r.km, p) @@ [made |-> <<rec>>])
                    /\ rcvd' = Put(rcvd, c, <<>>)
               ELSE UNCHANGED <<ctx, rcvd>>
-           /\ Record([op |-> "setup_r", c |-> c, form |-> "",
-                      plain |-> [suite |-> p.suite, mode |-> p.mode],
-                      bytes |-> [sk_r |-> p.skR, enc |-> p.enc, info |-> p.info] @@ ModeBytesR(p),
-                      kind |-> r.kind, err |-> r.err, out |-> [x \in {} |-> <<>>],
-                      outn |-> [x \in {} |-> 0],
-                      pre |-> NoState,
-                      post |-> IF r.kind = "ok" THEN [seq |-> Seq0, ovf |-> FALSE] ELSE NoState,
-                      untouched |-> FALSE])
+           /\ Record(rec)
     /\ UNCHANGED <<sent, shots, used>>
 
 (***************************************************************************)
 (* Verification hooks (cfg hpke_verif), named: a context built directly    *)
 (* from key material, and a jump of the counter.                           *)
 (***************************************************************************)
-RawCtxOf(m) == NewCtx(m.role, m.suite, [key |-> m.key, bn |-> m.bn, exp |-> m.exp], [raw |-> TRUE])
+RawCtxOf0(m) == NewCtx(m.role, m.suite, [key |-> m.key, bn |-> m.bn, exp |-> m.exp], [raw |-> TRUE])
 RawCtxRec(m) ==
     [op |-> "raw_ctx", c |-> m.c, form |-> "",
      plain |-> [suite |-> m.suite, role |-> m.role],
@@ -140,6 +148,11 @@ SetSeqRec(c, pre, v) ==
      plain |-> [seq |-> v.seq, ovf |-> v.ovf], bytes |-> [x \in {} |-> <<>>],
      kind |-> "ok", err |-> "", out |-> [x \in {} |-> <<>>], outn |-> [x \in {} |-> 0],
      pre |-> pre, post |-> v, untouched |-> FALSE]
+
+RawCtxOf(m) == RawCtxOf0(m) @@ [made |-> <<RawCtxRec(m)>>]
+\* a hook-built context put at counter state v before anything else happens to it
+RawCtxAt(m, v) == [RawCtxOf0(m) EXCEPT !.seq = v.seq, !.ovf = v.ovf]
+                  @@ [made |-> <<RawCtxRec(m), SetSeqRec(m.c, [seq |-> Seq0, ovf |-> FALSE], v)>>]
 
 HookRawCtx(m) ==
     /\ m.c \notin Live
@@ -166,19 +179,23 @@ Seal(c, pt, aad, form) ==
     /\ Bump("seal")
     /\ LET r == IF form = "alloc" THEN SealAllocStep(ctx[c], pt, aad) ELSE SealStep(ctx[c], pt, aad)
            d == SealStep(ctx[c], pt, aad)
+           rec == [op |-> "seal", c |-> c, form |-> form,
+                   plain |-> [x \in {} |-> 0], bytes |-> [pt |-> pt, aad |-> aad],
+                   kind |-> r.kind, err |-> r.err,
+                   out |-> IF form = "alloc" THEN [ct |-> r.ct] ELSE [ct |-> r.ct, tag |-> r.tag],
+                   outn |-> [x \in {} |-> 0],
+                   pre |-> SeqState(ctx[c]), post |-> SeqState(r.st),
+                   untouched |-> ~r.touched]
        IN  /\ ctx' = [ctx EXCEPT ![c] = r.st]
            /\ sent' = IF r.kind = "ok"
                       THEN [sent EXCEPT ![c] = Append(@, [seq |-> ctx[c].seq, pt |-> pt, aad |-> aad,
-                                                          ct |-> d.ct, tag |-> d.tag, key |-> ctx[c].key, ep |-> used["setseq"],
-                                                          nonce |-> NonceOf(ctx[c])])]
+                                                          ct |-> d.ct, tag |-> d.tag, key |-> ctx[c].key,
+                                                          ep |-> used["setseq"], nonce |-> NonceOf(ctx[c]),
+                                                          \* how a test re-creates this message (form does not matter)
+                                                          rec |-> [rec EXCEPT !.form = "detached",
+                                                                              !.out = [ct |-> d.ct, tag |-> d.tag]]])]
                       ELSE sent
-           /\ Record([op |-> "seal", c |-> c, form |-> form,
-                      plain |-> [x \in {} |-> 0], bytes |-> [pt |-> pt, aad |-> aad],
-                      kind |-> r.kind, err |-> r.err,
-                      out |-> IF form = "alloc" THEN [ct |-> r.ct] ELSE [ct |-> r.ct, tag |-> r.tag],
-                      outn |-> [x \in {} |-> 0],
-                      pre |-> SeqState(ctx[c]), post |-> SeqState(r.st),
-                      untouched |-> ~r.touched])
+           /\ Record(rec)
     /\ UNCHANGED <<rcvd, shots>>
 
 (***************************************************************************)
@@ -254,19 +271,22 @@ Open(c, d, form) ==
            /\ form = "detached" => BLen(dl.tag) = Nt(AeadOf(ctx[c]))
            /\ Bump("open")
            /\ LET r == OpenResult(ctx[c], dl, form)
+                  rec == [op |-> "open", c |-> c, form |-> form,
+                          plain |-> [d |-> d],
+                          bytes |-> IF form = "alloc" THEN [ct |-> Cat(dl.body, dl.tag), aad |-> dl.aad]
+                                    ELSE [ct |-> dl.body, tag |-> dl.tag, aad |-> dl.aad],
+                          kind |-> r.kind, err |-> r.err, out |-> [pt |-> r.pt],
+                          outn |-> [x \in {} |-> 0],
+                          pre |-> SeqState(ctx[c]), post |-> SeqState(r.st),
+                          untouched |-> ~r.touched]
               IN  /\ ctx' = [ctx EXCEPT ![c] = r.st]
                   /\ rcvd' = IF r.kind = "ok"
                              THEN [rcvd EXCEPT ![c] = Append(@, [seq |-> ctx[c].seq, pt |-> r.pt,
-                                                                 aad |-> dl.aad, d |-> d, ep |-> used["setseq"]])]
+                                                                 aad |-> dl.aad, d |-> d, ep |-> used["setseq"],
+                                                                 rec |-> [rec EXCEPT !.form = "detached",
+                                                                     !.bytes = [ct |-> dl.body, tag |-> dl.tag, aad |-> dl.aad]]])]
                              ELSE rcvd
-                  /\ Record([op |-> "open", c |-> c, form |-> form,
-                             plain |-> [d |-> d],
-                             bytes |-> IF form = "alloc" THEN [ct |-> Cat(dl.body, dl.tag), aad |-> dl.aad]
-                                       ELSE [ct |-> dl.body, tag |-> dl.tag, aad |-> dl.aad],
-                             kind |-> r.kind, err |-> r.err, out |-> [pt |-> r.pt],
-                             outn |-> [x \in {} |-> 0],
-                             pre |-> SeqState(ctx[c]), post |-> SeqState(r.st),
-                             untouched |-> ~r.touched])
+                  /\ Record(rec)
     /\ UNCHANGED <<sent, shots>>
 
 (***************************************************************************)
@@ -309,16 +329,17 @@ SingleShotSeal(m, form) ==
     /\ Bump("shot")
     /\ LET p == m.p
            r == ShotSealStep(p, m.pt, m.aad, form)
-       IN  /\ shots' = IF r.kind = "ok" THEN Append(shots, r.d) ELSE shots
-           /\ Record([op |-> "single_shot_seal", c |-> "", form |-> form,
-                      plain |-> [suite |-> p.suite, mode |-> p.mode],
-                      bytes |-> [pk_r |-> p.pkR, info |-> p.info, rng |-> p.rng,
-                                 pt |-> m.pt, aad |-> m.aad] @@ ModeBytesS(p),
-                      kind |-> r.kind, err |-> r.err,
-                      out |-> IF form = "alloc" THEN [enc |-> r.enc, ct |-> r.ct]
-                              ELSE [enc |-> r.enc, ct |-> r.ct, tag |-> r.tag],
-                      outn |-> [drawn |-> Nsk(p.suite[1])],
-                      pre |-> NoState, post |-> NoState, untouched |-> FALSE])
+           rec == [op |-> "single_shot_seal", c |-> "", form |-> form,
+                   plain |-> [suite |-> p.suite, mode |-> p.mode],
+                   bytes |-> [pk_r |-> p.pkR, info |-> p.info, rng |-> p.rng,
+                              pt |-> m.pt, aad |-> m.aad] @@ ModeBytesS(p),
+                   kind |-> r.kind, err |-> r.err,
+                   out |-> IF form = "alloc" THEN [enc |-> r.enc, ct |-> r.ct]
+                           ELSE [enc |-> r.enc, ct |-> r.ct, tag |-> r.tag],
+                   outn |-> [drawn |-> Nsk(p.suite[1])],
+                   pre |-> NoState, post |-> NoState, untouched |-> FALSE]
+       IN  /\ shots' = IF r.kind = "ok" THEN Append(shots, r.d @@ [rec |-> rec]) ELSE shots
+           /\ Record(rec)
     /\ UNCHANGED <<ctx, sent, rcvd>>
 
 SingleShotOpen(m, form) ==
@@ -341,6 +362,18 @@ SingleShotOpen(m, form) ==
     /\ UNCHANGED <<ctx, sent, rcvd, shots>>
 
 (***************************************************************************)
+(* What a one-transition implementation test needs: the calls that created *)
+(* every context, every message sealed and accepted so far (the test       *)
+(* replays them to re-create the state through the API), and the call.     *)
+(***************************************************************************)
+RecsOf(q) == [i \in 1..Len(q) |-> q[i].rec]
+TransitionRecord ==
+    [made |-> [c \in DOMAIN ctx' |-> ctx'[c].made],
+     sent |-> [c \in DOMAIN sent' |-> RecsOf(sent'[c])],
+     rcvd |-> [c \in DOMAIN rcvd' |-> RecsOf(rcvd'[c])],
+     shots |-> RecsOf(shots'),
+     last |-> last']
+
 Init ==
     /\ ctx = <<>> /\ sent = <<>> /\ rcvd = <<>> /\ shots = <<>>
     /\ used = [k \in {"seal", "open", "export", "setseq", "shot"} |-> 0]
